@@ -2,6 +2,7 @@ package writecache
 
 import (
 	storagelog "github.com/nspcc-dev/neofs-node/pkg/local_object_storage/internal/log"
+	"github.com/nspcc-dev/neofs-node/pkg/util/verifhook"
 	oid "github.com/nspcc-dev/neofs-sdk-go/object/id"
 )
 
@@ -26,6 +27,7 @@ func (c *cache) delete(addr oid.Address) error {
 			storagelog.StorageTypeField(wcStorageType),
 			storagelog.OpField("DELETE"),
 		)
+		verifhook.Point("wc.delete.afterFile")
 		c.objCounters.Delete(addr)
 		c.metrics.DecWCObjectCount()
 		c.metrics.SetWCSize(c.objCounters.Size())
